@@ -3,6 +3,8 @@ package specio
 import (
 	"bytes"
 	"fmt"
+	"github.com/basecomplextech/baselibrary/alloc"
+	"github.com/basecomplextech/baselibrary/buffer"
 	"math"
 	"sort"
 
@@ -397,6 +399,24 @@ func CheckMessage(m spec.Message, n *tree.Node, path string) error {
 		if !bytes.Equal(c2.Raw(), m.Raw()) || c2.Fields() != m.Fields() {
 			return fmt.Errorf("%s: message CloneTo differs", path)
 		}
+		cb := buffer.New()
+		cb.Write([]byte{0xaa, 0xbb, 0xcc}) // a buffer that already holds data
+		c3 := m.CloneToBuffer(cb)
+		ar := alloc.NewArena()
+		c4 := m.CloneToArena(ar)
+		for ci, c := range []spec.Message{c, c2, c3, c4} {
+			if !bytes.Equal(c.Raw(), m.Raw()) || c.Fields() != m.Fields() {
+				return fmt.Errorf("%s: message clone #%d differs", path, ci)
+			}
+			for i := 0; i < m.Fields(); i++ {
+				t1, _ := m.TagAt(i)
+				t2, _ := c.TagAt(i)
+				if t1 != t2 || !bytes.Equal(c.FieldRaw(t2), m.FieldRaw(t1)) || !bytes.Equal(c.FieldAt(i), m.FieldAt(i)) {
+					return fmt.Errorf("%s: message clone #%d: entry %d (tag %d) reads differently from the original", path, ci, i, t1)
+				}
+			}
+		}
+		ar.Free()
 	}
 	return nil
 }
